@@ -134,8 +134,49 @@ class Synthetic(core.Layer):
         return check_case(tuple(case['records']), None)
 
 
+def own_reader(ctx, mode, extra, obs):
+    """inside the run's process: read every output file back with the XmapReader the Program itself holds (the one it wrote with)"""
+    out = {}
+    prog = obs.program
+    if prog is None:
+        return out
+    for fk, p in obs.paths.items():
+        try:
+            with open(p) as f:
+                back = prog.xmapReader.readAlignments(f)
+            out[fk] = [[(x.reference.siteId, float(x.reference.position), x.query.siteId, float(x.query.position)) for x in b.alignedPairs]
+                       for b in back]
+        except Exception as e:
+            out[fk] = 'exception: %s: %s' % (type(e).__name__, str(e)[:200])
+    return out
+
+
+def judge(ctx, mode, extra, obs, acc):
+    found = e2e.judge_c18(ctx, mode, extra, obs, acc)
+    for fk, got in sorted((obs.extra or {}).items()):
+        recs = e2e.xmaptext.parse(obs.files.get(fk, ''))[2]
+        if isinstance(got, str):
+            found.append(('own-reader-exception', 'mode=%s file=%s %s' % (mode, fk, got), 'reader', dict(records=min(len(recs), 2))))
+            continue
+        if len(got) != len(recs):
+            found.append(('own-reader-count', 'mode=%s file=%s: %d alignments for %d records' % (mode, fk, len(got), len(recs)), 'reader', {}))
+            continue
+        for pairs, r in zip(got, recs):
+            rmap, qmap = ctx.rmaps.get(int(r['RefContigID'])), ctx.qmaps.get(int(r['QryContigID']))
+            if rmap is None or qmap is None or not e2e.record_valid(r, rmap, qmap):
+                continue
+            if [(a, c) for a, b, c, d in pairs] != r['pairs']:
+                found.append(('own-reader-pairs', 'mode=%s file=%s got %s expected %s' % (mode, fk, pairs[:3], r['pairs'][:3]), 'reader', {}))
+            elif any(b != rmap[1][a - 1] or abs(d - (qmap[1][c - 1] - qmap[1][0])) > 1e-6 for a, b, c, d in pairs):
+                found.append(('own-reader-pair-coordinates', 'mode=%s file=%s query %s: pair coordinates %s are not those of the maps that were '
+                              'aligned' % (mode, fk, r['QryContigID'], pairs[:2]), 'reader', {}))
+            if acc is not None:
+                acc.classes['records-read-with-the-program-own-reader'] += 1
+    return found
+
+
 def layers(tier, seed):
     ws = e2e.std_worlds(tier, seed, depth2=False)
     return [Synthetic(3 if tier == 'quick' else 4),
-            e2e.WorldLayer('B:worlds', ws, e2e.judge_c18, bounds=dict(worlds=len(ws), modes=list(e2e.MODES)),
-                           rule='every file (main,_1,_2) of every standard world x 4 modes, read back with both parsers')]
+            e2e.WorldLayer('B:worlds', ws, judge, in_child=own_reader, bounds=dict(worlds=len(ws), modes=list(e2e.MODES)),
+                           rule='every file (main,_1,_2) of every standard world x 4 modes, read back with both parsers and with the reader object the Program wrote it with')]
